@@ -5,6 +5,9 @@ SPEC = {
          "harness": ["verifsys/doc.go", "verifsys/common_*.go", "verifsys/c05_*.go", "verifsys/c14_*.go"],
          "binary": {"race": False}, "compile_then_run": True,
          "timeout_quick": 900, "timeout_thorough": 3400},
+        {"name": "dhcpd", "pkg": "./internal/dhcpd/", "run": "^TestVerifC05Dhcpd$",
+         "harness": ["dhcpd/c05_*.go"], "env": {"VERIF_DHCPD_PROP": "C14"},
+         "timeout_quick": 600, "timeout_thorough": 3000},
     ],
 }
 
